@@ -787,7 +787,8 @@ def run(ctx):
         rep.count("tables", json.dumps(c), nontrivial="of" in im)
         for kind, detail, fkey in judge_single(c, im, mo, tables):
             rep.fail(kind, {"stream": "tables", "case": c}, {"detail": detail, "refused": im.get("refused")}, finding_key=fkey)
-    rep.extra["exhaustive"] = "tables stream: every table entry and every triple"
+    rep.extra["exhaustive"] = False  # only the tables stream is; see exhaustive_part
+    rep.extra["exhaustive_part"] = "tables stream: every table entry and every triple (the hierarchy, registry and cells streams are sampled)"
     # ---- hierarchy
     n = 120 if ctx.quick else 2000
     hc = hier_cases(rng, n)
